@@ -477,6 +477,42 @@ CXX_F2 = {"max": lambda a, b: b if a < b else a, "min": lambda a, b: b if b < a 
           "atan2": math.atan2, "std::pow": lambda a, b: math.pow(a, b)}
 
 
+
+def _bind_libm():
+    """the exported formula is C++: evaluate its functions with the C library itself (python's math.erf, erfc,
+    gamma and lgamma are python's own implementations and differ from glibc in the last digits, which an
+    ill-conditioned outer function amplifies beyond any fixed tolerance)"""
+    import ctypes, ctypes.util
+    try:
+        lm = ctypes.CDLL(ctypes.util.find_library("m") or "libm.so.6")
+    except OSError:
+        return
+    def f1(name):
+        f = getattr(lm, name); f.restype = ctypes.c_double; f.argtypes = [ctypes.c_double]
+        return lambda x: f(float(x))
+    def f2(name):
+        f = getattr(lm, name); f.restype = ctypes.c_double; f.argtypes = [ctypes.c_double, ctypes.c_double]
+        return lambda a, b: f(float(a), float(b))
+    for py, c in (("exp", "exp"), ("exp2", "exp2"), ("expm1", "expm1"), ("cbrt", "cbrt"), ("sqrt", "sqrt"),
+                  ("ln", "log"), ("log", "log"), ("log10", "log10"), ("log2", "log2"), ("log1p", "log1p"),
+                  ("cosh", "cosh"), ("sinh", "sinh"), ("tanh", "tanh"), ("acosh", "acosh"), ("asinh", "asinh"),
+                  ("atanh", "atanh"), ("sin", "sin"), ("cos", "cos"), ("tan", "tan"), ("acos", "acos"),
+                  ("asin", "asin"), ("atan", "atan"), ("erf", "erf"), ("erfc", "erfc"), ("tgamma", "tgamma"),
+                  ("lgamma", "lgamma")):
+        try:
+            CXX_F1[py] = f1(c)
+        except AttributeError:
+            pass
+    for py, c in (("hypot", "hypot"), ("atan2", "atan2"), ("std::pow", "pow")):
+        try:
+            CXX_F2[py] = f2(c)
+        except AttributeError:
+            pass
+
+
+_bind_libm()
+
+
 def cxx_eval(s, env):
     """value of the C++ expression `s` (a getCxxFormula string) with the variables of `env`;
     raises CxxError when the string is not an expression of the rendering grammar or a function
